@@ -370,7 +370,7 @@ func runC05(c *fw.Check) {
 	for i, e := range entries {
 		bases = append(bases, gen.Variants(e, i, bound)...)
 	}
-	c.Rule = fmt.Sprintf("base modules = all variants with <=%d deviations of the %d-production generator catalogue (every kind of reference site occurs: operands, callees, branch targets, phi predecessors, type uses, comdat uses, metadata uses in attachments/tuples/DI fields/named metadata, blockaddress function and block, use-list orders); EVERY tagged use site is redirected to a fresh undefined name and EVERY definition (top-level entity, function, instruction result, label) is duplicated, one fault at a time; oracle: asm.ParseString returns an error and no module and does not panic; a fault the library accepts or crashes on is checked with llvm-as and counts only if LLVM rejects it (binding the fault model); every 16th fault is sent to llvm-as regardless. PLUS, sequentially in one goroutine, for every base with <=1 deviations: parse the unmodified base, then the base with ONE top-level definition that is used elsewhere removed (state remembered from the earlier parse must not resolve the name). Undefined attribute-group IDs are the documented exception and are not faulted. distinct = (base module, fault).", bound, len(entries))
+	c.Rule = fmt.Sprintf("base modules = all variants with <=%d deviations of the %d-production generator catalogue (every kind of reference site occurs: operands, callees, branch targets, phi predecessors, type uses, comdat uses, metadata uses in attachments/tuples/DI fields/named metadata, blockaddress function and block, use-list orders); EVERY tagged use site is redirected to a fresh undefined name and EVERY definition (top-level entity, function, instruction result, label) is duplicated, one fault at a time; oracle: asm.ParseString returns an error and no module and does not panic; a fault the library accepts or crashes on is checked with llvm-as and counts only if LLVM rejects it (binding the fault model); every 16th fault is sent to llvm-as regardless. PLUS misnumbered locals: every explicitly numbered function shape with <=2 parameters, <=2 blocks, <=1 instruction per block (incl. value-producing invoke/callbr terminators), every written number replaced by every other number in 0..max+1. PLUS, sequentially in one goroutine, for every base with <=1 deviations: parse the unmodified base, then the base with ONE top-level definition that is used elsewhere removed (state remembered from the earlier parse must not resolve the name). Undefined attribute-group IDs are the documented exception and are not faulted. distinct = (base module, fault).", bound, len(entries))
 	c.Extra["base_modules"] = len(bases)
 	var mu sync.Mutex
 	type vrec struct {
@@ -510,6 +510,7 @@ func runC05(c *fw.Check) {
 	for _, v := range viols {
 		c.Violation(v.sig, v.cs)
 	}
+	c05misnumbered(c)
 	c.Extra["faults"] = nfaults
 	c.Extra["faults_llvm_accepts_skipped"] = benign
 	c.Extra["faults_sampled_through_llvm"] = sampled
